@@ -11,8 +11,8 @@
 //!     and is not directly followed by a character that would have continued it;
 //!   * every run of space/tab/newline with two or more newlines contains a `Subexpression` token.
 //!
-//! A failing input is reduced by a deterministic descent (delete a character, replace a character by an
-//! earlier alphabet symbol, keeping the same failure kind) to a locally minimal witness; the signature is
+//! A failing input is reduced by a deterministic descent (delete a substring, replace a symbol or a substring
+//! by an earlier alphabet symbol, keeping the same failure kind) to a locally minimal witness; the signature is
 //! `kind :: witness`, so one defect gives a handful of signatures however many inputs it breaks.
 
 use crate::fw::{guard, Ctx, Meta, Property, Tier};
@@ -782,7 +782,6 @@ fn all_in(s: &[char], alphabet: &[char]) -> bool {
 }
 
 fn run_strings(seg: &Seg, tier: Tier, prefix: &[char], cx: &mut Ctx) {
-    let full_len = tier.pick(4usize, 5usize);
     let core_len = tier.pick(6usize, 7usize);
     let n = seg.alphabet.len();
     let k = seg.suffix as usize;
@@ -804,7 +803,6 @@ fn run_strings(seg: &Seg, tier: Tier, prefix: &[char], cx: &mut Ctx) {
         if dup {
             continue;
         }
-        let _ = full_len;
         s.clear();
         s.extend(chars.iter());
         check_input(cx, &s, seg.name, true, None);
